@@ -105,10 +105,14 @@ def linspace (a b : Rat) (n : Nat) : List Rat :=
     if 1 < n ∧ i + 1 = n then b else a + (i : Rat) * ((b - a) / ((n : Rat) - 1)))
 
 /-- `y / y.sum()` -/
-def normalise (y : List Rat) : List Rat := y.map (· / y.sum)
+def normalise (y : List Rat) : List Rat :=
+  let s := y.sum      -- formed once, as in the code
+  y.map (· / s)
 
 /-- `y / y.sum()` for values in any type with `+`, `0`, `/` (the real-valued densities) -/
-def normaliseK {K : Type} [Add K] [Zero K] [Div K] (y : List K) : List K := y.map (· / y.sum)
+def normaliseK {K : Type} [Add K] [Zero K] [Div K] (y : List K) : List K :=
+  let s := y.sum
+  y.map (· / s)
 
 /-- REGRESSION mechanism (seeded change C18-c2, not the code): `y / max(y.sum(), t)` — the divisor floored at a
 positive constant `t` (`np.finfo(float).tiny`) "so that an all-zero density does not divide by zero".  Unlike
@@ -327,14 +331,15 @@ def lognormalFactors (sigma mu x : Rat) : List K :=
   [S.ofRat 1 / (S.ofRat (x * sigma) * S.s2pi), S.exp (-(S.ofRat (1 / 2)) * (t * t))]
 def loglaplaceFactors (b mu x : Rat) : List K :=
   [S.ofRat (1 / (2 * b * x)), S.exp (-(S.abs (S.log (S.ofRat x) - S.ofRat mu)) / S.ofRat b)]
-/-- `beta**alpha`, `1 / gamma(alpha)`, `x ** (-alpha - 1)`, `exp(-beta / x)` -/
+/-- `beta**alpha / gamma(alpha)`, `x ** (-alpha - 1)`, `exp(-beta / x)`: the three multiplicands of the code -/
 def inversegammaFactors (alpha beta x : Rat) : List K :=
-  [S.rpow (S.ofRat beta) (S.ofRat alpha), S.ofRat (1 / gammaApprox alpha),
+  [S.rpow (S.ofRat beta) (S.ofRat alpha) / S.ofRat (gammaApprox alpha),
    S.rpow (S.ofRat x) (S.ofRat (-alpha - 1)), S.exp (S.ofRat (-beta / x))]
-/-- `x ** (alpha - 1)`, `(1 - x) ** (beta - 1)`, `gamma(alpha + beta)`, `1 / gamma(alpha)`, `1 / gamma(beta)` -/
+/-- `x ** (alpha - 1)`, `(1 - x) ** (beta - 1)`, `1 / B`: the multiplicands of the code (the division by `B` as a
+multiplication by its reciprocal) -/
 def betaFactors (alpha beta x : Rat) : List K :=
   [S.rpow (S.ofRat x) (S.ofRat (alpha - 1)), S.rpow (S.ofRat (1 - x)) (S.ofRat (beta - 1)),
-   S.ofRat (gammaApprox (alpha + beta)), S.ofRat (1 / gammaApprox alpha), S.ofRat (1 / gammaApprox beta)]
+   S.ofRat 1 / S.ofRat (gammaApprox alpha * gammaApprox beta / gammaApprox (alpha + beta))]
 
 end factors
 
